@@ -25,7 +25,7 @@ SPECDIR = os.path.join(vlib.SPEC, 'query')
 INVS = 'AllChecks'
 NAMED_INVS = 'MechEqDef QuirksExplain Laws'
 ALL_QUIRKS = ['avg_sql', 'type_cross', 'dup_series', 'groupby_order', 'dup_labelsets', 'names_ignored', 'merge_lineless',
-              'merge_emptystack', 'merge_incompatible', 'stale_unit']
+              'merge_emptystack', 'merge_incompatible', 'stale_unit', 'second_matcher_lost']
 
 CFG = '''SPECIFICATION Spec
 CONSTANTS
@@ -82,7 +82,8 @@ CLASSES_REQUIRED = ['ep_SelectSeries', 'ep_SelectMergeProfile', 'ep_ProfileTypes
                     'select_series_group_without_labels', 'profile_outside_window', 'profile_one_instant_outside_window_bound',
                     'profile_exactly_on_window_bound', 'profile_exactly_on_bucket_start', 'profile_1ns_before_bucket_end',
                     'merge_profile_two_sample_types', 'merge_profile_several_stacks', 'merge_profile_sample_with_unit_label',
-                    'merge_profile_several_profiles_in_db', 'series_with_label_names', 'series_with_matcher',
+                    'merge_profile_several_profiles_in_db', 'series_with_label_names', 'series_with_matcher', 'series_with_two_matchers',
+                    'label_names_or_values_with_two_matchers',
                     'request_with_equality_selector', 'db_of_1_profiles', 'db_of_2_profiles', 'db_of_3_profiles',
                     'cases_where_a_quirk_fires']
 
